@@ -55,7 +55,7 @@ def _cases(draw, ctx):
     absent = [h for h in S.HEADER_LIST if h not in spec["tracks"]]
     sels = [None, []]
     for _ in range(draw(st.integers(1, 4))):
-        kind = draw(st.sampled_from(["subset", "subset", "superset", "absent", "dups", "single"]))
+        kind = draw(st.sampled_from(["subset", "subset", "superset", "absent", "dups", "single", "many", "many"]))
         if kind == "subset":
             sel = draw(st.lists(st.sampled_from(present), unique=True, max_size=len(present))) if present else []
         elif kind == "single":
@@ -63,6 +63,23 @@ def _cases(draw, ctx):
         elif kind == "superset":
             sel = list(present) + draw(st.lists(st.sampled_from(absent), max_size=3, unique=True))
             sel = draw(st.permutations(sel))
+        elif kind == "many":
+            # LONG selections: as many entries as there are pairs (40) or more, without naming them all:
+            # one or two pairs repeated, 39 distinct pairs and a repeat, all 40 (also reversed, also twice)
+            how = draw(st.integers(0, 4))
+            if how == 0:
+                sel = [draw(st.sampled_from(present or absent))] * draw(st.sampled_from([39, 40, 41, 64, 100]))
+            elif how == 1:
+                a, b = draw(st.sampled_from(present or absent)), draw(st.sampled_from(absent or present))
+                sel = [a, b] * draw(st.sampled_from([20, 25, 40]))
+            elif how == 2:
+                drop = draw(st.sampled_from(present or absent))
+                sel = [h for h in S.HEADER_LIST if h != drop]
+                sel = sel + [sel[draw(st.integers(0, 38))]] * draw(st.sampled_from([1, 2]))
+            elif how == 3:
+                sel = list(reversed(S.HEADER_LIST))
+            else:
+                sel = list(S.HEADER_LIST) * 2
         elif kind == "absent":
             sel = draw(st.lists(st.sampled_from(absent), min_size=1, max_size=3, unique=True))
         else:
